@@ -486,6 +486,10 @@ def isbuiltintype(
 
 @compat.cache
 def isstdlibtype(obj: type) -> compat.TypeIs[type[STDLibtypeT]]:
+    # An alias is what it stands for (`typing.get_args` of the alias object itself is empty,
+    #   which would make `all(...)` below vacuously true for any union-valued alias).
+    if istypealiastype(obj):
+        return isstdlibtype(obj.__value__)
     if isoptionaltype(obj):
         nargs = tp.get_args(obj)[:-1]
         return all(isstdlibtype(a) for a in nargs)
